@@ -98,10 +98,27 @@ def _new_obj(r, o, n):
     return "new %d dim %d gens %d %s" % (o, n, cnt, " ".join(gs))
 
 
+def rand_pfunc(r, n, full=None):
+    """Injective partial map of the n dimensions onto 0..k-1 (k = n: a permutation, biased to contain a cycle)."""
+    if full is None:
+        full = r.random() < 0.55
+    k = n if full else r.randint(0, n)
+    kept = sorted(r.sample(range(n), k))
+    img = list(range(k))
+    r.shuffle(img)
+    if k >= 2 and img == list(range(k)):
+        img = img[1:] + img[:1]
+    m = [-1] * n
+    for i, j in zip(kept, img):
+        m[i] = j
+    return m
+
+
 OPS = [("addcg", 10), ("refcg", 2), ("addcgs", 4), ("addgen", 10), ("addgens", 3), ("inters", 7), ("join", 7),
        ("image", 7), ("preimage", 7), ("embed", 2), ("project", 2), ("rmhigher", 3), ("copy", 4), ("assign", 3),
        ("swap", 1), ("closure", 1), ("new", 3),
-       ("unconstrain", 2), ("telapse", 3), ("diff", 5), ("gimage", 4), ("gpreimage", 4),
+       ("unconstrain", 2), ("telapse", 3), ("diff", 5),
+       ("mapdims", 4), ("rmdims", 3), ("expand", 2), ("fold", 2), ("concat", 2), ("gimage", 4), ("gpreimage", 4),
        ("obs", 14), ("q", 10), ("q2", 12), ("rel", 10), ("freq", 9), ("relgen", 5)]
 
 
@@ -175,6 +192,36 @@ def history(r, cid, maxdim=3, nsteps=None, sparse=False):
             lines.append("q %d %s" % (o, r.choice(["is_empty", "is_universe", "is_discrete", "is_bounded"])))
         elif op == "q2":
             lines.append("q2 %d %d %s" % (o, r.choice(same), r.choice(["contains", "strictly_contains", "disjoint", "equals"])))
+        elif op == "mapdims":
+            if n == 0:
+                continue
+            lines.append("mapdims %d %s" % (o, " ".join(map(str, rand_pfunc(r, n)))))
+            dims[o] = max(0, 1 + max(int(t) for t in lines[-1].split()[2:]))
+        elif op == "rmdims":
+            vs = sorted(r.sample(range(n), r.randint(0, n)))
+            lines.append("rmdims %d %d %s" % (o, len(vs), " ".join(map(str, vs))))
+            dims[o] = n - len(vs)
+        elif op == "expand":
+            if n == 0 or n >= 6:
+                continue
+            m = r.randint(1, min(2, 6 - n))
+            lines.append("expand %d %d %d" % (o, r.randrange(n), m))
+            dims[o] = n + m
+        elif op == "fold":
+            if n < 2:
+                continue
+            dest = r.randrange(n)
+            others = [i for i in range(n) if i != dest]
+            vs = sorted(r.sample(others, r.randint(1, min(2, len(others)))))
+            lines.append("fold %d %d %d %s" % (o, dest, len(vs), " ".join(map(str, vs))))
+            dims[o] = n - len(vs)
+        elif op == "concat":
+            ys = [y for y in range(4) if n + dims[y] <= 6]
+            if not ys:
+                continue
+            y = r.choice(ys)
+            lines.append("concat %d %d" % (o, y))
+            dims[o] = n + dims[y]
         elif op == "unconstrain":
             if n == 0:
                 continue
@@ -199,3 +246,106 @@ def history(r, cid, maxdim=3, nsteps=None, sparse=False):
             lines.append("rel %d %s" % (o, cg(r, n)))
     lines.append("end")
     return "\n".join(lines) + "\n"
+
+
+# ---------------------------------------------------------------------------------------------------------------
+# third stream: lazy-state x operator x query matrix
+# ---------------------------------------------------------------------------------------------------------------
+def bundle_gens(r, n, v):
+    """Generators with several parameters / lines along coordinate v (collapse together under a non-invertible image of v)."""
+    e = lambda k, c: [c if t == k else 0 for t in range(n)]
+    gs = []
+    for _ in range(r.randint(2, 3)):
+        vec = e(v, r.choice([1, 2, 3, -2, 4]))
+        if r.random() < 0.25 and n > 1:
+            vec[r.choice([i for i in range(n) if i != v])] = r.choice([1, -1, 2])
+        kind = r.choice("qql")
+        gs.append("%s %d %s" % (kind, 1 if kind == "l" else r.choice(DIVS), " ".join(map(str, vec))))
+    if r.random() < 0.5 and n > 1:
+        w = r.choice([i for i in range(n) if i != v])
+        gs.append("q %d %s" % (r.choice(DIVS), " ".join(map(str, e(w, r.choice([1, 2, 3]))))))
+    pt = [r.choice([0, 0, 1, -1, 2]) for _ in range(n)]
+    gs.append("p %d %s" % (r.choice(DIVS), " ".join(map(str, pt))))
+    r.shuffle(gs)
+    return gs
+
+
+def matrix_case(r, cid):
+    """object 0 is driven into a chosen lazy state, ONE operator is applied, and queries reading each description follow
+    immediately (the judge also compares all four descriptions of every object after every step)."""
+    global SPARSE, SUPPORT
+    SPARSE, SUPPORT = False, None
+    n = r.choice([1, 2, 2, 3, 3, 3, 4])
+    v = r.randrange(n)
+    L = ["case %s" % cid]
+    inv_img = lambda: "image 0 %d %d %d %s" % (v, r.randint(-2, 2), r.choice([1, -1]),
+                                               " ".join(str(r.choice([1, -1]) if i == v else r.choice([0, 0, 1])) for i in range(n)))
+    drivers = [("cgs", []), ("cgs", ["obs 0 mcgs"]), ("cgs", ["obs 0 gens"]), ("cgs", ["obs 0 mgens"]),
+               ("gens", []), ("gens", ["obs 0 mgens"]), ("gens", ["obs 0 cgs"]), ("gens", ["obs 0 mcgs"]),
+               ("gens", ["obs 0 cgs", inv_img()]), ("cgs", ["obs 0 gens", inv_img()]),
+               ("gens", ["q 0 is_empty"]), ("cgs", ["q 0 is_empty"])]
+    kind, pre = r.choice(drivers)
+    if kind == "cgs":
+        cnt = r.randint(0, 3)
+        L.append("new 0 dim %d cgs %d %s" % (n, cnt, " ".join(cg(r, n) for _ in range(cnt))))
+    else:
+        gs = bundle_gens(r, n, v) if r.random() < 0.6 else [gen(r, n, "p")] + [gen(r, n) for _ in range(r.randint(0, 3))]
+        r.shuffle(gs)
+        L.append("new 0 dim %d gens %d %s" % (n, len(gs), " ".join(gs)))
+    L.append(new_obj(r, 1, n))
+    L += pre
+    dim0 = n
+    expr = lambda var, noninv: " ".join(str(0 if (i == var and noninv) else r.choice([0, 0, 1, -1, 2])) for i in range(n))
+    op = r.choice(["image", "image", "image", "preimage", "preimage", "gimage", "gpreimage", "embed", "project", "rmhigher",
+                   "rmdims", "rmdims", "mapdims", "mapdims", "mapdims", "expand", "fold", "concat", "unconstrain", "telapse",
+                   "join", "inters", "diff", "addcg", "addgen", "addgens", "copy"])
+    var = v if r.random() < 0.6 else r.randrange(n)
+    noninv = r.random() < 0.6
+    if op in ("image", "preimage"):
+        L.append("%s 0 %d %d %d %s" % (op, var, r.randint(-3, 3), r.choice([1, 1, -1, 2, 3]), expr(var, noninv)))
+    elif op in ("gimage", "gpreimage"):
+        L.append("%s 0 %d eq %d %d %d %s" % (op, var, r.randint(-3, 3), r.choice([1, 1, -1, 2, 3]), r.choice([0, 1, 2, 3]), expr(var, noninv)))
+    elif op in ("embed", "project"):
+        m = r.randint(1, 2); L.append("%s 0 %d" % (op, m)); dim0 = n + m
+    elif op == "rmhigher":
+        dim0 = r.randint(0, n); L.append("rmhigher 0 %d" % dim0)
+    elif op == "rmdims":
+        vs = sorted(set([v] if r.random() < 0.6 else []) | set(r.sample(range(n), r.randint(0, n - 1))))
+        L.append("rmdims 0 %d %s" % (len(vs), " ".join(map(str, vs)))); dim0 = n - len(vs)
+    elif op == "mapdims":
+        m = rand_pfunc(r, n, full=(r.random() < 0.7)); L.append("mapdims 0 %s" % " ".join(map(str, m))); dim0 = max(0, 1 + max(m))
+    elif op == "expand":
+        m = r.randint(1, 2); L.append("expand 0 %d %d" % (var, m)); dim0 = n + m
+    elif op == "fold":
+        if n < 2:
+            L.append("closure 0")
+        else:
+            others = [i for i in range(n) if i != var]
+            vs = sorted(r.sample(others, r.randint(1, min(2, len(others)))))
+            L.append("fold 0 %d %d %s" % (var, len(vs), " ".join(map(str, vs)))); dim0 = n - len(vs)
+    elif op == "concat":
+        L.append("concat 0 1"); dim0 = 2 * n
+    elif op == "unconstrain":
+        L.append("unconstrain 0 %d" % var)
+    elif op in ("telapse", "join", "inters", "diff"):
+        L.append("%s 0 1" % op)
+    elif op == "addcg":
+        L.append("addcg 0 %s" % cg(r, n))
+    elif op == "addgen":
+        L.append("addgen 0 %s" % gen(r, n))
+    elif op == "addgens":
+        k = r.randint(1, 3); L.append("addgens 0 %d %s" % (k, " ".join(gen(r, n) for _ in range(k))))
+    elif op == "copy":
+        L.append("copy 2 0")
+    tgt = 2 if op == "copy" else 0
+    qs = ["q %d is_bounded" % tgt, "q %d is_discrete" % tgt, "q %d is_universe" % tgt, "q %d is_empty" % tgt,
+          "freq %d %d %s" % (tgt, r.choice([0, 1, -2, 3]), " ".join(str(r.choice([0, 1, -1, 2])) for _ in range(dim0))),
+          "rel %d %s" % (tgt, cg(r, dim0)), "relgen %d %s" % (tgt, gen(r, dim0)),
+          "obs %d gens" % tgt, "obs %d cgs" % tgt, "obs %d mgens" % tgt, "obs %d mcgs" % tgt, "obs %d ok" % tgt]
+    if dim0 == n and tgt == 0:
+        qs += ["q2 0 1 equals", "q2 0 1 contains", "q2 1 0 contains", "q2 0 1 disjoint", "q2 0 1 strictly_contains"]
+    qs += ["q2 %d %d equals" % (tgt, tgt)]
+    for q in r.sample(qs, 2):
+        L.append(q)
+    L.append("end")
+    return "\n".join(L) + "\n"
